@@ -5,14 +5,18 @@ import (
 
 	"verif/harness/explore"
 	"verif/harness/mon"
+	"verif/harness/pure"
+	"verif/harness/runner"
 	"verif/harness/scen"
 )
 
 func init() {
 	regSpec(scen.IDs)
 	Registry["C14"] = func(tier string) int {
-		return engineA("C14", tier, []scen.Spec{scen.IDs(), scen.BridgeSpec()},
+		return engineAWith("C14", tier, []scen.Spec{scen.IDs(), scen.BridgeSpec()},
 			func() []explore.Monitor { return []explore.Monitor{&mon.C14{}} },
-			budget(tier, 80*time.Second, 12*time.Minute))
+			budget(tier, 80*time.Second, 12*time.Minute),
+			func(o *runner.Outcome) { pure.C14Formats(tier, o) },
+			"format part (Engine B): bounded-exhaustive enumeration of formatted ids and of arbitrary short strings against a hand-written recogniser of the documented grammar; details under coverage.formats")
 	}
 }
